@@ -13,7 +13,7 @@ import os
 
 import numpy as np
 
-from .. import core, motlsys, motlutil, starutil as su
+from .. import argguard, core, motlsys, motlutil, starutil as su
 
 FIELDS14 = ["score", "subtomo_id", "tomo_id", "object_id", "x", "y", "z", "shift_x", "shift_y", "shift_z",
             "phi", "psi", "theta", "class"]
@@ -43,7 +43,7 @@ def cfg(spec_lines, U, emit=True):
 class Gamma:
     """value token -> real.  Token t (1-based) has kind TOKEN_KINDS[(t-1) % 7]; distinct tokens get distinct reals."""
 
-    def __init__(self, rng, ntokens, U, sidk=0):
+    def __init__(self, rng, ntokens, U, sidk=0, flat=0):
         self.U = U
         # subtomogram numbers are sidk * 10^9 + (abstract number < 10^9): composite ids beyond 2^31 (TLC's integers are
         # 32-bit, so the specification keeps the small part); 10^9 is even, the parity is that of the abstract number
@@ -67,7 +67,27 @@ class Gamma:
             used.add(v)
             used.add(round(v, 6))
             self.val[t] = v
-        self.inv = {v: t for t, v in self.val.items()}
+        # one field group of the list all-equal / all-zero while the others are not (flat: 1 class all equal, 2 all angles
+        # zero, 3 all scores zero, 4 tomogram and object numbers all equal); tokens are then compared by VALUE
+        for t in list(self.val):
+            kind = TOKEN_KINDS[(t - 1) % 7]
+            if flat == 1 and kind == "class":
+                self.val[t] = 3.0
+            elif flat == 2 and kind in ("phi", "psi", "theta"):
+                self.val[t] = 0.0
+            elif flat == 3 and kind == "score":
+                self.val[t] = 0.0
+            elif flat == 4 and kind in ("tomo_id", "object_id"):
+                self.val[t] = 1.0 if kind == "tomo_id" else 2.0
+        self.inv = {}
+        for t, v in self.val.items():
+            self.inv.setdefault(v, t)
+
+    def same(self, a, e):
+        """Do two abstract values name the same thing (value tokens by the real they stand for)?"""
+        if a == e:
+            return True
+        return isinstance(a, int) and isinstance(e, int) and a in self.val and e in self.val and self.val[a] == self.val[e]
 
     def canon_table(self):
         return [su.canon_of_number(self.val[t]) for t in range(1, len(self.val) + 1)]
@@ -134,7 +154,8 @@ def build_motl_df(rows, g, rng):
     n = len(rows)
     cols = motlutil.empty_rows(n)
     for f in UNSHARED:
-        cols[f] = np.array([rng.uniform(-5, 5) for _ in range(n)])
+        # the six fields STOPGAP does not carry are populated (geom3 / geom5 strictly positive): nothing of them may leak
+        cols[f] = np.array([rng.uniform(1, 9) if f in ("geom3", "geom5") else rng.uniform(-5, 5) for _ in range(n)])
     for i, p in enumerate(rows):
         for f in FIELDS14:
             cols[f][i] = g.motl_value(f, p[f])
@@ -170,12 +191,15 @@ def independent_sg_file(path, sgrows, g, rng):
         if rng.random() < 0.5:
             fh.write("# written by the C04 driver\n")
         fh.write("\ndata_stopgap_motivelist\n\nloop_\n")
-        for c in SG_COLUMNS:
+        order = list(SG_COLUMNS)
+        if rng.random() < 0.5:
+            rng.shuffle(order)                      # a STAR loop may list its labels in any order
+        for c in order:
             fh.write("_%s\n" % c)
         fh.write("\n")
         for s in sgrows:
             cells = []
-            for c in SG_COLUMNS:
+            for c in order:
                 v = g.sg_value(c, s[c], s)
                 cells.append(v if c == "halfset" else (str(int(v)) if c in INT_S and rng.random() < 0.5 else repr(float(v))))
             fh.write(rng.choice(["  ", "\t", " "]).join(cells) + "\n")
@@ -195,7 +219,7 @@ def compare_motl(ctx, df, expected, g, clause, case, sig, what, loose=False):
         vals = df[f].tolist()
         for i, e in enumerate(expected):
             a = g.abstract(motl_kind(f), vals[i], loose)
-            if a != e[f]:
+            if a != e[f] and not (motl_kind(f) == "tok" and g.same(a, e[f])):
                 ctx.fail(clause, "%s: particle %d field %s = %r (abstract %r), expected abstract %r (= %r)" % (
                     what, i + 1, f, vals[i], a, e[f], g.motl_value(f, e[f])), case, dict(sig, field=f))
                 return False
@@ -215,7 +239,7 @@ def compare_sg(ctx, sg_df, expected, g, case, sig, what="", reset=False):
         clause = "C04_Halfset" if c == "halfset" else "C04_MotlIdx" if c == "motl_idx" else "C04_Renaming"
         for i, e in enumerate(expected):
             a = g.abstract(sg_kind(c, reset), vals[i])
-            if a != e[c]:
+            if a != e[c] and not (sg_kind(c, reset) == "tok" and g.same(a, e[c])):
                 ctx.fail(clause, "%sparticle %d column %s = %r (abstract %r), expected abstract %r" % (
                     what, i + 1, c, vals[i], a, e[c]), case, dict(sig, field=c))
                 return False
@@ -328,20 +352,61 @@ class Runner:
         variant = case["variant"]
         if op["name"] == "export":
             df = motlutil.vary_index(build_motl_df(case["pre"], g, rng), variant // 2)
-            keep = df.copy()
+            guard = argguard.Guard(motl_table=df)
             res, err = core.call_guarded(api_export, df, op["reset"], variant, case.get("hist"), g)
             if err is not None:
                 ctx.fail("call_raises", "convert_to_sg_motl: %s" % err, case, sig)
                 return None
-            if not df.equals(keep) or list(df.index) != list(keep.index):
-                ctx.fail("C04_Renaming", "convert_to_sg_motl modified its input list", case, sig)
+            self.unchanged(guard, "convert_to_sg_motl", case, sig)
+            if variant % 3 == 0:
+                # the SAME table object converted once more (other call form): must be what a fresh table gives
+                self.noise(case)
+                again, err = core.call_guarded(api_export, df, op["reset"], variant + 1, case.get("hist"), g)
+                if err is not None:
+                    ctx.fail("call_raises", "second convert_to_sg_motl of the same table object: %s" % err, case, sig)
+                else:
+                    compare_sg(ctx, again, case["sg"], g, case, dict(sig, reused=True),
+                               what="second conversion of the same table object: ", reset=op["reset"])
+                    self.unchanged(guard, "second convert_to_sg_motl", case, sig)
             return res
         sg_df = motlutil.vary_index(build_sg_df(case["sgin"], g, rng), variant // 5)
+        guard = argguard.Guard(stopgap_table=sg_df)
         res, err = core.call_guarded(api_import, sg_df, variant)
         if err is not None:
             ctx.fail("call_raises", "convert_to_motl: %s" % err, case, sig)
             return None
+        self.unchanged(guard, "conversion from the STOPGAP table", case, sig)
+        if variant % 3 == 1 and variant % 5 != 4:
+            self.noise(case)
+            v2 = variant + 1 if (variant + 1) % 5 != 4 else variant + 2
+            again, err = core.call_guarded(api_import, sg_df, v2)
+            if err is not None:
+                ctx.fail("call_raises", "second conversion of the same STOPGAP table object: %s" % err, case, sig)
+            else:
+                compare_motl(ctx, again, case["back"], g, "C04_Renaming", case, dict(sig, reused=True),
+                             "second conversion of the same STOPGAP table object")
+                self.unchanged(guard, "second conversion from the STOPGAP table", case, sig)
         return res
+
+    def unchanged(self, guard, what, case, sig):
+        why = guard.changed()
+        if why is not None:
+            self.ctx.fail("C04_ArgumentsUnchanged", "%s changed the caller's table - %s" % (what, why), case, dict(sig, arg=why.split(":")[0]))
+
+    def noise(self, case=None):
+        """Unrelated public calls with other options between two calls under test (no state may leak between calls)."""
+        from cryocat import cryomotl
+        self.nnoise = getattr(self, "nnoise", 0) + 1
+        cols = motlutil.empty_rows(3)
+        cols["subtomo_id"][:] = [4, 9, 2]
+        cols["tomo_id"][:] = 77
+        cols["x"][:] = [1.25, 2.5, 3.75]
+        cols["shift_x"][:] = [0.4, -0.3, 0.2]
+        _, err = core.call_guarded(lambda: (cryomotl.StopgapMotl.convert_to_sg_motl(motlutil.df_from_cols(cols), reset_index=self.nnoise % 2 == 0),
+                                            cryomotl.emmotl2stopgap(motlutil.df_from_cols(cols), update_coordinates=True)))
+        if err is not None:
+            self.ctx.fail("call_raises", "STOPGAP conversions of a small auxiliary list between two calls: %s" % err, case or {"kind": "none"},
+                          {"op": "auxiliary"})
 
     def judge_inmem(self, got, case, g, sig, later):
         ctx = self.ctx
@@ -363,7 +428,7 @@ class Runner:
 
     def gamma_for(self, case):
         rng = __import__("random").Random(case["gseed"])
-        return Gamma(rng, ntokens_of(case["pre"]), self.U, case.get("sidk", 0)), rng
+        return Gamma(rng, ntokens_of(case["pre"]), self.U, case.get("sidk", 0), case.get("flat", 0)), rng
 
     def run_case(self, case):
         """case: {kind: 'tr', U, pre, op, rows, sg, sgin, back, gseed, variant}"""
@@ -405,10 +470,12 @@ class Runner:
             df = motlutil.vary_index(build_motl_df(case["pre"], g, rng), variant // 2)
             path = os.path.join(ctx.workdir, "sgout_%d_%d.star" % (os.getpid(), self.n))
             hist = case.get("hist")
+            guard = argguard.Guard(motl_table=df)
             res, err = core.call_guarded(api_write, df, path, op["update"], op["reset"], variant, hist, g)
             if err is not None:
                 ctx.fail("call_raises", "write_out: %s" % err, case, sig)
                 return
+            self.unchanged(guard, "write_out / emmotl2stopgap", case, sig)
             # the live object after the call holds the (possibly updated) list
             compare_motl(ctx, res, case["rows"], g, "C04_UpdateCoord", case, sig,
                          "list returned by emmotl2stopgap without an output path" if variant % 3 == 2 and not hist else "list held after write_out")
@@ -538,8 +605,15 @@ class Runner:
 SIDK = [0, 0, 0, 3, 0, 8, 2, 0]          # 10^9-multiples added to the subtomogram numbers (0: small numbers)
 
 
-def case_from_tr(tr, U, gseed, variant, pre=None, hist=None, sidk=None):
-    return {"kind": "tr", "U": U, "hist": hist or [], "sidk": SIDK[gseed % len(SIDK)] if sidk is None else sidk, "pre": pre if pre is not None else tr["pre"], "op": tr["op"], "rows": tr["rows"],
+FLAT = [0, 0, 1, 0, 2, 0, 3, 4, 0]          # which field group of the list is all-equal / all-zero (see Gamma)
+
+
+def case_from_tr(tr, U, gseed, variant, pre=None, hist=None, sidk=None, flat=None):
+    if flat is None:
+        flat = FLAT[(gseed // 3) % len(FLAT)]
+        if flat == 1 and any(h["op"] == "remove" for h in (hist or [])):
+            flat = 0                            # remove_feature("class", c) needs distinguishable classes
+    return {"kind": "tr", "U": U, "hist": hist or [], "flat": flat, "sidk": SIDK[gseed % len(SIDK)] if sidk is None else sidk, "pre": pre if pre is not None else tr["pre"], "op": tr["op"], "rows": tr["rows"],
             "sg": tr["sg"], "sgin": tr["sgin"], "back": tr["back"], "backu": tr["backu"], "gseed": gseed, "variant": variant}
 
 
@@ -561,19 +635,21 @@ def replay(ctx, case):
 
 
 # ---- seeded lists ----------------------------------------------------------------------------------
-def gen_list(rng, n, U):
+def gen_list(rng, n, U, zero_shifts=None):
     sids = rng.sample(range(1, 20 * n + 50), n)
     if rng.random() < 0.3:
         sids.sort()
     rows = []
+    if zero_shifts is None:
+        zero_shifts = rng.random() < 0.15      # a whole list with all-zero shifts and non-integer positions (update_coord!)
     for i in range(n):
         p = {"subtomo_id": sids[i]}
         for k, f in enumerate(TOKEN_KINDS):
             p[f] = 7 * i + k + 1
         for ax in ("x", "y", "z"):
             while True:
-                pos = rng.randint(-50, 2000) * U + (0 if rng.random() < 0.7 else rng.randint(-U // 2, U // 2))
-                sh = rng.randint(-6 * U, 6 * U) if rng.random() < 0.8 else 0
+                pos = rng.randint(-50, 2000) * U + (0 if rng.random() < 0.7 and not zero_shifts else rng.randint(-U // 2, U // 2))
+                sh = rng.randint(-6 * U, 6 * U) if rng.random() < 0.8 and not zero_shifts else 0
                 frac = (pos + sh) % U
                 # exact half-voxel ties of the complete position are C05's subject (either neighbour is acceptable there)
                 if (U == 8 and frac != 4) or (U != 8 and abs(frac - U / 2) > 2):
@@ -614,11 +690,15 @@ def run_seeded(ctx, U, sizes, tag):
     path = os.path.join(wd, "cases.ndjson")
     cases = []
     with open(path, "w") as fh:
-        for n in sizes:
-            rows = gen_list(ctx.rng, n, U)
+        for k, n in enumerate(sizes):
+            # the first cases of every run: all-zero shifts at non-integer positions, written with update_coord=True
+            forced = k < 6
+            rows = gen_list(ctx.rng, n, U, zero_shifts=True if forced else None)
             c = {"rows": rows, "path": ctx.rng.choice(["mem", "file", "file", "obj", "fobj"]), "reset": ctx.rng.random() < 0.5,
                  "update": ctx.rng.random() < 0.5, "hist": gen_hist(ctx.rng, [p["class"] for p in rows]),
                  "edit": ctx.rng.choice(["update", "setclass"])}
+            if forced:
+                c.update({"path": ["file", "fobj", "file"][k % 3], "update": True, "edit": "update"})
             cases.append(c)
             fh.write(json.dumps(c) + "\n")
     res = ctx.tlc("StopgapCases", cfg(["INIT CaseInit", "NEXT CaseNext"], U).replace("CONSTANTS", "CONSTANTS\n InitLists = {}"),
